@@ -23,7 +23,7 @@ its media objects (left the room, left the call, been closed) since the request
 that created the object started, still has the permission the object needs, and
 refers to the object (so that the next leave / close will close it). -/
 def Entitled (st : State) (o : Obj) : Prop :=
-  (st.sess o.owner).closePc = 0 ∧
+  (st.sess o.owner).closed = false ∧
   o.stamp = (st.sess o.owner).epoch ∧
   permitted (st.sess o.owner).perms o.kind o.media = true ∧
   (st.sess o.owner).objs o.kind = some o.id
@@ -32,7 +32,7 @@ def Entitled (st : State) (o : Obj) : Prop :=
 or revocation goroutine waiting to run, no `Close()` half-way. -/
 def Quiescent (st : State) : Prop :=
   st.pend = [] ∧ st.closing = [] ∧
-  ∀ i, (st.sess i).sweeps = 0 ∧ ((st.sess i).closePc = 0 ∨ (st.sess i).closePc = 3)
+  ∀ i, (st.sess i).sweeps = 0 ∧ (st.sess i).needLeave = 0 ∧ (st.sess i).needRelease = 0
 
 /-! ### Judge -/
 
